@@ -84,9 +84,14 @@ theorem rootT_rows (r : Op α) : (rootT r).rows = r.cols := by
   unfold rootT
   split <;> simp [rows, cols]
 
-theorem denote_root_form (b : Op α) (hb : b.isRoot = true) (i j : Nat) :
-    b.denote i j = sumN b.rootOf.cols fun k => b.rootOf.denote i k * b.rootOf.denote j k := by
-  cases b <;> simp [isRoot] at hb <;> simp [denote, rootOf]
+theorem rootT_cols (r : Op α) : (rootT r).cols = r.rows := by
+  unfold rootT
+  split <;> simp [rows, cols]
+
+theorem lowRankTerm_refines (b : Op α) (hb : b.isRoot = true) (i j : Nat) :
+    (lowRankTerm b).denote i j = b.denote i j := by
+  cases b <;> simp [isRoot] at hb <;>
+    simp [lowRankTerm, rootOf, denote, rootT_rows, rootT_cols, rootT_refines]
 
 theorem baseAdd_refines (a b r : Op α) (h : baseAdd a b = .ok r) (i j : Nat) :
     r.denote i j = a.denote i j + b.denote i j := by
@@ -97,12 +102,8 @@ theorem baseAdd_refines (a b r : Op α) (h : baseAdd a b = .ok r) (i j : Nat) :
     simp [denote]
   · exact mkAddedDiag_refines _ _ _ _ h i j
   · cases h
-    simp only [denote, denoteL, add_zero, rootT_rows, Nat.min_self]
-    rw [denote_root_form b h3]
-    congr 1
-    apply sumN_congr
-    intro l _
-    rw [rootT_refines]
+    simp only [denote, denoteL, add_zero]
+    rw [lowRankTerm_refines b h3]
   · cases h
     simp [denote, denoteL]
 
